@@ -72,6 +72,11 @@ def ptr_history(rnd, first_id):
     if rnd.random() < 0.5:
         fields.append(A.field("post", A.t_int("uint16")))
     t = A.t_struct("PS", fields)
+    if rnd.random() < 0.2:
+        # the pointer is a member of a fixed-size union (its members are parsed from a copy of the union's bytes - the pointer
+        # still points into the stream the union came from; finding F54)
+        fields = [A.field("p0", A.t_ptr(rnd.choice(tg))), A.field("raw", A.t_int(A.PTRTYPES[mode["ptr"]]))]
+        t = A.t_struct("PS", fields, union=True)
     defs = A.render(t)
     compiled = rnd.random() < 0.5
     if rnd.random() < 0.3 and "struct PS" in defs:
@@ -105,7 +110,7 @@ def ptr_history(rnd, first_id):
             if f["type"]["k"] == "ptr":
                 addr = rnd.choice([0, n - 1, n, n + 5, rnd.randrange(0, n), rnd.randrange(0, n), start])
                 addr = min(addr, (1 << (8 * width)) - 1)
-                off = start + rf.offset
+                off = start + (rf.offset or 0)
                 data[off:off + width] = addr.to_bytes(width, "little" if mode["endian"] == "<" else "big")
         data = bytes(data)
         stream = codec.FaultyStream(data)      # behaves like BytesIO until a fault is armed (DerefFault below)
